@@ -8,7 +8,7 @@ import zlib
 
 from ..core import Tally  # noqa: F401
 from .. import s2c, tlc
-from .bloomfam import KEYMAP, gen_tables, make_hash, strategy_fn, strategy_table
+from .bloomfam import KEYMAP, Unmodelled, gen_tables, make_hash, strategy_fn, strategy_table
 
 ENGINE = "countmin"
 MOD = "vlib.engines.countmin"
@@ -29,6 +29,7 @@ cCellMin == {tlc.tla_val(p['cellmin'])}
 cTotMin == {tlc.tla_val(p['totmin'])}
 cChannels == {tlc.tla_val(set(p.get('channels', ['bytes', 'file'])))}
 cModes == {tlc.tla_val(set(p.get('modes', [])))}
+cBad == {tlc.tla_val(set(p.get('bad', [])))}
 ====
 """,
     )
@@ -67,6 +68,7 @@ PROPERTY SaturatedStays
   MaxReloads = {p.get('maxreloads', 1)}
   Queries = {"TRUE" if p.get('queries') else "FALSE"}
   Modes <- cModes
+  Bad <- cBad
 INIT Init
 NEXT Next
 VIEW {"ViewH" if p.get("histview") else "View"}
@@ -147,6 +149,19 @@ class Ctx:
             forms = {"min": ["min", None, "MIN", "anything-else"], "mean": ["mean", "MEAN", "Mean"], "meanmin": ["mean-min", "MEAN-MIN", "Mean-Min"]}[o[2]]
             s.query_type = forms[zlib.crc32(repr((self.opno, o)).encode()) % len(forms)] if self.alt(o) else forms[0]
             return None
+        if o[0] == "bad":      # a call the library rejects: more hashes than the sketch has rows; the caller catches the error and carries on
+            key = self.rk(o[2])
+            hs = list(s.hashes(key)) + [1, 2]
+            try:
+                if o[3] == 1:
+                    s.add_alt(hs, 1) if self.kind == "cms" else s.add_alt(key, hs, 1)
+                elif self.kind == "hh":
+                    s.remove_alt(hs, 1)          # not supported for heavy hitters: rejected as well
+                else:
+                    s.remove_alt(hs, 1) if self.kind == "cms" else s.remove_alt(key, hs, 1)
+            except Exception:  # noqa
+                return None
+            raise Unmodelled("the malformed call was accepted")
         if o[0] == "chk":
             key = self.rk(o[2])
             return s.check_alt(s.hashes(key)) if self.alt(o) else s.check(key)
@@ -225,6 +240,9 @@ class Ctx:
         try:
             ret = self.apply(objs, o)
             s = objs[w]
+        except Unmodelled:
+            t.extra["skipped_malformed_call_accepted"] = t.extra.get("skipped_malformed_call_accepted", 0) + 1
+            return
         except Exception as exc:  # noqa
             t.fail("C05" if o[0] == "rt" else "C16", "C05.load_raises" if o[0] == "rt" else "C16.returns", ENGINE, rp(raised=repr(exc)), sig)
             return
@@ -312,7 +330,7 @@ class Ctx:
             lr = last_ret[w]
             want = {k: v for k, v in lr.items() if v >= self.p["thr"]}
             t.check(dict(self.table(s)) == want, "C17", "C17.thr_exact", ENGINE, lambda: rp2(returned=lr), sig)
-            if mode == "min" and not ex["sat"] and legit:
+            if mode == "min" and not ex["sat"] and legit and not self.p.get("modes"):      # a consequence of the min query's lower bound: stated for
                 miss = [k for k in self.keys if k in lr and ex["tru"][k] >= self.p["thr"] and k not in dict(self.table(s))]
                 t.check(not miss, "C17", "C17.thr_never_missing", ENGINE, lambda: rp2(missing=miss), sig)
         # drift
@@ -422,7 +440,7 @@ def profiles(tier, seed, light=False, focus=None):
         P.append(dict(solo, W=2, D=2, H=5, ntables=6))
         P.append(dict(solo, W=1, D=1, H=2, ntables=1))
         P.append(dict(solo, W=1, D=2, H=2, ntables=1, maxdepth=3))          # one column, several rows
-        P.append(dict(solo, W=3, D=2, H=7, ntables=4, maxdepth=3))
+        P.append(dict(solo, W=3, D=2, H=7, ntables=4, maxdepth=3, bad=[1, 2]))      # + additions / removals the library rejects (hash list too long)
         P.append(dict(base, W=2, D=2, H=5, ntables=4, maxdepth=3, maxtrue=2))
         P.append(dict(base, W=2, D=1, H=3, ntables=3, maxdepth=3, maxtrue=2, keys=["a", "b"]))
         P.append(dict(solo, W=2, D=2, H=5, ntables=3, mode="mean", maxdepth=3))
@@ -430,7 +448,7 @@ def profiles(tier, seed, light=False, focus=None):
         P.append(dict(base, W=2, D=2, H=5, ntables=4, kind="hh", nh=2, whos=["A"], keys=["a", "b", "c", "d"], amts=[1, 2], maxdepth=4, maxtrue=4))
         P.append(dict(base, W=1, D=1, H=2, ntables=1, kind="hh", nh=1, whos=["A"], keys=["a", "b", "c"], amts=[1, 2], maxdepth=5, maxtrue=4))
         P.append(dict(base, W=2, D=1, H=3, ntables=3, kind="hh", nh=2, whos=["A"], keys=["a", "b", "c"], amts=[0, 1], maxdepth=4, maxtrue=3))     # amount 0 is a valid call
-        P.append(dict(base, W=2, D=2, H=5, ntables=4, kind="st", thr=2, whos=["A"], maxdepth=4, maxtrue=3))
+        P.append(dict(base, W=2, D=2, H=5, ntables=4, kind="st", thr=2, whos=["A"], maxdepth=4, maxtrue=3, bad=[1, 2], keys=["a", "b"]))
         P.append(dict(base, W=1, D=1, H=2, ntables=1, kind="st", thr=3, whos=["A"], amts=[1, 3], maxdepth=5, maxtrue=4))
         P.append(dict({**base, **tiny}, W=2, D=2, H=5, ntables=4, maxdepth=3, whos=["A"]))
         P.append(dict({**base, **tiny}, W=2, D=1, H=3, ntables=3, maxdepth=3, amts=[2, 4]))
@@ -442,14 +460,14 @@ def profiles(tier, seed, light=False, focus=None):
         solo = dict(base, whos=["A"], maxdepth=5, maxtrue=3)
         P.append(dict(solo, W=2, D=2, H=3, ntables=0, exhaustive=True, keys=["a", "b"], maxdepth=4))          # every table of the smallest geometry
         for (W, D, H, n) in [(1, 1, 2, 2), (2, 2, 5, 14), (3, 2, 7, 12), (3, 3, 7, 8), (5, 4, 11, 6), (2, 1, 5, 6), (1, 3, 2, 3)]:
-            P.append(dict(solo, W=W, D=D, H=H, ntables=n))
+            P.append(dict(solo, W=W, D=D, H=H, ntables=n, bad=[1, 2] if (W, D) in ((3, 2), (2, 1)) else []))
         for (W, D, H, n) in [(2, 2, 5, 4), (3, 2, 7, 3), (2, 1, 3, 2)]:                                          # pairs: join
             P.append(dict(base, W=W, D=D, H=H, ntables=n, maxdepth=4, maxtrue=2))
         for mode in ("mean", "meanmin"):
             for (W, D, H, n) in [(2, 2, 5, 6), (3, 3, 7, 5), (2, 3, 5, 5)]:
                 P.append(dict(solo, W=W, D=D, H=H, ntables=n, mode=mode, maxdepth=4))
         for nh in (1, 2, 3):
-            P.append(dict(base, W=2, D=2, H=5, ntables=5, kind="hh", nh=nh, whos=["A"], keys=["a", "b", "c", "d"], maxdepth=5, maxtrue=4))
+            P.append(dict(base, W=2, D=2, H=5, ntables=5, kind="hh", nh=nh, whos=["A"], keys=["a", "b", "c", "d"], maxdepth=5, maxtrue=4, bad=[1, 2] if nh == 1 else []))
         P.append(dict(base, W=1, D=2, H=2, ntables=1, kind="hh", nh=2, whos=["A"], keys=["a", "b", "c", "d"], maxdepth=6, maxtrue=4))
         P.append(dict(base, W=2, D=1, H=3, ntables=4, kind="hh", nh=2, whos=["A"], keys=["a", "b", "c"], amts=[0, 1, 2], maxdepth=5, maxtrue=4))
         P.append(dict(base, W=2, D=1, H=3, ntables=4, kind="st", thr=1, whos=["A"], keys=["a", "b"], amts=[0, 1], maxdepth=5, maxtrue=3))
